@@ -903,6 +903,40 @@ api_harness!(c17_central_only_reserved_refused, 10, {
     kani::cover!(id == 0xbeef && sz == 2);
 });
 
+/// C09 writer half / C01: the sink accepts only ONE byte of a 2-byte Write::write call (short
+/// write): the writer reports 1, the caller writes the rest, and the finished archive is
+/// byte-for-byte the reference archive of the 2-byte payload (CRC and sizes count only the bytes
+/// the sink accepted).
+// @h prop=C09,C01 tier=quick t=600 mem=6 uws="fn:^std::ptr::drop_glue::<std::io::Error>$:2"
+api_harness!(c09_writer_one_short_write, 10, {
+    let mut sink = Sink::<128>::new();
+    let mut w = core::mem::ManuallyDrop::new(ZipWriter::new(sink.handle()));
+    let d: [u8; 2] = kani::any();
+    let (o1, date1, time1, perm1) = sym_opts();
+    ok!(w.start_file("a", o1), "start_file failed");
+    sink.env.short = true;
+    sink.env.sched = 0; // every call accepts 1 byte
+    match w.write(&d) {
+        Ok(n) => assert_eq!(n, 1),
+        Err(e) => {
+            core::mem::forget(e);
+            assert!(false, "write failed");
+        }
+    }
+    sink.env.short = false;
+    match w.write(&d[1..]) {
+        Ok(n) => assert_eq!(n, 1),
+        Err(e) => {
+            core::mem::forget(e);
+            assert!(false, "write failed");
+        }
+    }
+    ok!(w.finish(), "finish failed");
+    let exp = [Exp { name: b"a", content: &d, local_extra: &[], central_extra: &[], large: false, date: date1, time: time1, mode: 0o100000 | perm1, encrypted: false, raw: None }];
+    judge_archive(&sink.buf, 0, sink.end, &exp, &[]);
+    kani::cover!(true);
+});
+
 /// C09 writer half / C01: the sink accepts the entry DATA in arbitrary short writes (1..=4 bytes per
 /// call, symbolic schedule); the finished archive is byte-for-byte the one the reference layout
 /// prescribes (CRC, sizes, data), i.e. identical to the archive produced with full writes.
@@ -1245,283 +1279,283 @@ macro_rules! c11_fault_at {
     };
 }
 /// C11 writer scenario (start_file a, write, start_file b, write, finish, drop): the sink's I/O call number 0 fails (whatever its kind: write, seek or flush). No call panics - neither then nor later, incl. the implicit finalisation on drop -, the failure is reported by some call, and a failure-free run yields exactly the reference archive.
-// @h prop=C11,C12 tier=quick t=300 mem=4 name=c11_writer_fault_k000 uws="fn:^std::ptr::drop_glue::<:2;fn:Drop>::drop$:2;fn:drop_box_raw:2;fn:^std::mem::drop::<:2"
+// @h prop=C11 tier=quick t=300 mem=4 name=c11_writer_fault_k000 uws="fn:^std::ptr::drop_glue::<:2;fn:Drop>::drop$:2;fn:drop_box_raw:2;fn:^std::mem::drop::<:2"
 c11_fault_at!(c11_writer_fault_k000, 0);
 /// C11 writer scenario (start_file a, write, start_file b, write, finish, drop): the sink's I/O call number 1 fails (whatever its kind: write, seek or flush). No call panics - neither then nor later, incl. the implicit finalisation on drop -, the failure is reported by some call, and a failure-free run yields exactly the reference archive.
-// @h prop=C11,C12 tier=thorough t=300 mem=4 name=c11_writer_fault_k001 uws="fn:^std::ptr::drop_glue::<:2;fn:Drop>::drop$:2;fn:drop_box_raw:2;fn:^std::mem::drop::<:2"
+// @h prop=C11 tier=thorough t=300 mem=4 name=c11_writer_fault_k001 uws="fn:^std::ptr::drop_glue::<:2;fn:Drop>::drop$:2;fn:drop_box_raw:2;fn:^std::mem::drop::<:2"
 c11_fault_at!(c11_writer_fault_k001, 1);
 /// C11 writer scenario (start_file a, write, start_file b, write, finish, drop): the sink's I/O call number 2 fails (whatever its kind: write, seek or flush). No call panics - neither then nor later, incl. the implicit finalisation on drop -, the failure is reported by some call, and a failure-free run yields exactly the reference archive.
-// @h prop=C11,C12 tier=thorough t=300 mem=4 name=c11_writer_fault_k002 uws="fn:^std::ptr::drop_glue::<:2;fn:Drop>::drop$:2;fn:drop_box_raw:2;fn:^std::mem::drop::<:2"
+// @h prop=C11 tier=thorough t=300 mem=4 name=c11_writer_fault_k002 uws="fn:^std::ptr::drop_glue::<:2;fn:Drop>::drop$:2;fn:drop_box_raw:2;fn:^std::mem::drop::<:2"
 c11_fault_at!(c11_writer_fault_k002, 2);
 /// C11 writer scenario (start_file a, write, start_file b, write, finish, drop): the sink's I/O call number 3 fails (whatever its kind: write, seek or flush). No call panics - neither then nor later, incl. the implicit finalisation on drop -, the failure is reported by some call, and a failure-free run yields exactly the reference archive.
-// @h prop=C11,C12 tier=thorough t=300 mem=4 name=c11_writer_fault_k003 uws="fn:^std::ptr::drop_glue::<:2;fn:Drop>::drop$:2;fn:drop_box_raw:2;fn:^std::mem::drop::<:2"
+// @h prop=C11 tier=thorough t=300 mem=4 name=c11_writer_fault_k003 uws="fn:^std::ptr::drop_glue::<:2;fn:Drop>::drop$:2;fn:drop_box_raw:2;fn:^std::mem::drop::<:2"
 c11_fault_at!(c11_writer_fault_k003, 3);
 /// C11 writer scenario (start_file a, write, start_file b, write, finish, drop): the sink's I/O call number 4 fails (whatever its kind: write, seek or flush). No call panics - neither then nor later, incl. the implicit finalisation on drop -, the failure is reported by some call, and a failure-free run yields exactly the reference archive.
-// @h prop=C11,C12 tier=thorough t=300 mem=4 name=c11_writer_fault_k004 uws="fn:^std::ptr::drop_glue::<:2;fn:Drop>::drop$:2;fn:drop_box_raw:2;fn:^std::mem::drop::<:2"
+// @h prop=C11 tier=thorough t=300 mem=4 name=c11_writer_fault_k004 uws="fn:^std::ptr::drop_glue::<:2;fn:Drop>::drop$:2;fn:drop_box_raw:2;fn:^std::mem::drop::<:2"
 c11_fault_at!(c11_writer_fault_k004, 4);
 /// C11 writer scenario (start_file a, write, start_file b, write, finish, drop): the sink's I/O call number 5 fails (whatever its kind: write, seek or flush). No call panics - neither then nor later, incl. the implicit finalisation on drop -, the failure is reported by some call, and a failure-free run yields exactly the reference archive.
-// @h prop=C11,C12 tier=thorough t=300 mem=4 name=c11_writer_fault_k005 uws="fn:^std::ptr::drop_glue::<:2;fn:Drop>::drop$:2;fn:drop_box_raw:2;fn:^std::mem::drop::<:2"
+// @h prop=C11 tier=thorough t=300 mem=4 name=c11_writer_fault_k005 uws="fn:^std::ptr::drop_glue::<:2;fn:Drop>::drop$:2;fn:drop_box_raw:2;fn:^std::mem::drop::<:2"
 c11_fault_at!(c11_writer_fault_k005, 5);
 /// C11 writer scenario (start_file a, write, start_file b, write, finish, drop): the sink's I/O call number 6 fails (whatever its kind: write, seek or flush). No call panics - neither then nor later, incl. the implicit finalisation on drop -, the failure is reported by some call, and a failure-free run yields exactly the reference archive.
-// @h prop=C11,C12 tier=thorough t=300 mem=4 name=c11_writer_fault_k006 uws="fn:^std::ptr::drop_glue::<:2;fn:Drop>::drop$:2;fn:drop_box_raw:2;fn:^std::mem::drop::<:2"
+// @h prop=C11 tier=thorough t=300 mem=4 name=c11_writer_fault_k006 uws="fn:^std::ptr::drop_glue::<:2;fn:Drop>::drop$:2;fn:drop_box_raw:2;fn:^std::mem::drop::<:2"
 c11_fault_at!(c11_writer_fault_k006, 6);
 /// C11 writer scenario (start_file a, write, start_file b, write, finish, drop): the sink's I/O call number 7 fails (whatever its kind: write, seek or flush). No call panics - neither then nor later, incl. the implicit finalisation on drop -, the failure is reported by some call, and a failure-free run yields exactly the reference archive.
-// @h prop=C11,C12 tier=thorough t=300 mem=4 name=c11_writer_fault_k007 uws="fn:^std::ptr::drop_glue::<:2;fn:Drop>::drop$:2;fn:drop_box_raw:2;fn:^std::mem::drop::<:2"
+// @h prop=C11 tier=thorough t=300 mem=4 name=c11_writer_fault_k007 uws="fn:^std::ptr::drop_glue::<:2;fn:Drop>::drop$:2;fn:drop_box_raw:2;fn:^std::mem::drop::<:2"
 c11_fault_at!(c11_writer_fault_k007, 7);
 /// C11 writer scenario (start_file a, write, start_file b, write, finish, drop): the sink's I/O call number 8 fails (whatever its kind: write, seek or flush). No call panics - neither then nor later, incl. the implicit finalisation on drop -, the failure is reported by some call, and a failure-free run yields exactly the reference archive.
-// @h prop=C11,C12 tier=thorough t=300 mem=4 name=c11_writer_fault_k008 uws="fn:^std::ptr::drop_glue::<:2;fn:Drop>::drop$:2;fn:drop_box_raw:2;fn:^std::mem::drop::<:2"
+// @h prop=C11 tier=thorough t=300 mem=4 name=c11_writer_fault_k008 uws="fn:^std::ptr::drop_glue::<:2;fn:Drop>::drop$:2;fn:drop_box_raw:2;fn:^std::mem::drop::<:2"
 c11_fault_at!(c11_writer_fault_k008, 8);
 /// C11 writer scenario (start_file a, write, start_file b, write, finish, drop): the sink's I/O call number 9 fails (whatever its kind: write, seek or flush). No call panics - neither then nor later, incl. the implicit finalisation on drop -, the failure is reported by some call, and a failure-free run yields exactly the reference archive.
-// @h prop=C11,C12 tier=thorough t=300 mem=4 name=c11_writer_fault_k009 uws="fn:^std::ptr::drop_glue::<:2;fn:Drop>::drop$:2;fn:drop_box_raw:2;fn:^std::mem::drop::<:2"
+// @h prop=C11 tier=thorough t=300 mem=4 name=c11_writer_fault_k009 uws="fn:^std::ptr::drop_glue::<:2;fn:Drop>::drop$:2;fn:drop_box_raw:2;fn:^std::mem::drop::<:2"
 c11_fault_at!(c11_writer_fault_k009, 9);
 /// C11 writer scenario (start_file a, write, start_file b, write, finish, drop): the sink's I/O call number 10 fails (whatever its kind: write, seek or flush). No call panics - neither then nor later, incl. the implicit finalisation on drop -, the failure is reported by some call, and a failure-free run yields exactly the reference archive.
-// @h prop=C11,C12 tier=thorough t=300 mem=4 name=c11_writer_fault_k010 uws="fn:^std::ptr::drop_glue::<:2;fn:Drop>::drop$:2;fn:drop_box_raw:2;fn:^std::mem::drop::<:2"
+// @h prop=C11 tier=thorough t=300 mem=4 name=c11_writer_fault_k010 uws="fn:^std::ptr::drop_glue::<:2;fn:Drop>::drop$:2;fn:drop_box_raw:2;fn:^std::mem::drop::<:2"
 c11_fault_at!(c11_writer_fault_k010, 10);
 /// C11 writer scenario (start_file a, write, start_file b, write, finish, drop): the sink's I/O call number 11 fails (whatever its kind: write, seek or flush). No call panics - neither then nor later, incl. the implicit finalisation on drop -, the failure is reported by some call, and a failure-free run yields exactly the reference archive.
-// @h prop=C11,C12 tier=thorough t=300 mem=4 name=c11_writer_fault_k011 uws="fn:^std::ptr::drop_glue::<:2;fn:Drop>::drop$:2;fn:drop_box_raw:2;fn:^std::mem::drop::<:2"
+// @h prop=C11 tier=thorough t=300 mem=4 name=c11_writer_fault_k011 uws="fn:^std::ptr::drop_glue::<:2;fn:Drop>::drop$:2;fn:drop_box_raw:2;fn:^std::mem::drop::<:2"
 c11_fault_at!(c11_writer_fault_k011, 11);
 /// C11 writer scenario (start_file a, write, start_file b, write, finish, drop): the sink's I/O call number 12 fails (whatever its kind: write, seek or flush). No call panics - neither then nor later, incl. the implicit finalisation on drop -, the failure is reported by some call, and a failure-free run yields exactly the reference archive.
-// @h prop=C11,C12 tier=thorough t=300 mem=4 name=c11_writer_fault_k012 uws="fn:^std::ptr::drop_glue::<:2;fn:Drop>::drop$:2;fn:drop_box_raw:2;fn:^std::mem::drop::<:2"
+// @h prop=C11 tier=thorough t=300 mem=4 name=c11_writer_fault_k012 uws="fn:^std::ptr::drop_glue::<:2;fn:Drop>::drop$:2;fn:drop_box_raw:2;fn:^std::mem::drop::<:2"
 c11_fault_at!(c11_writer_fault_k012, 12);
 /// C11 writer scenario (start_file a, write, start_file b, write, finish, drop): the sink's I/O call number 13 fails (whatever its kind: write, seek or flush). No call panics - neither then nor later, incl. the implicit finalisation on drop -, the failure is reported by some call, and a failure-free run yields exactly the reference archive.
-// @h prop=C11,C12 tier=quick t=300 mem=4 name=c11_writer_fault_k013 uws="fn:^std::ptr::drop_glue::<:2;fn:Drop>::drop$:2;fn:drop_box_raw:2;fn:^std::mem::drop::<:2"
+// @h prop=C11 tier=quick t=300 mem=4 name=c11_writer_fault_k013 uws="fn:^std::ptr::drop_glue::<:2;fn:Drop>::drop$:2;fn:drop_box_raw:2;fn:^std::mem::drop::<:2"
 c11_fault_at!(c11_writer_fault_k013, 13);
 /// C11 writer scenario (start_file a, write, start_file b, write, finish, drop): the sink's I/O call number 14 fails (whatever its kind: write, seek or flush). No call panics - neither then nor later, incl. the implicit finalisation on drop -, the failure is reported by some call, and a failure-free run yields exactly the reference archive.
-// @h prop=C11,C12 tier=quick t=300 mem=4 name=c11_writer_fault_k014 uws="fn:^std::ptr::drop_glue::<:2;fn:Drop>::drop$:2;fn:drop_box_raw:2;fn:^std::mem::drop::<:2"
+// @h prop=C11 tier=quick t=300 mem=4 name=c11_writer_fault_k014 uws="fn:^std::ptr::drop_glue::<:2;fn:Drop>::drop$:2;fn:drop_box_raw:2;fn:^std::mem::drop::<:2"
 c11_fault_at!(c11_writer_fault_k014, 14);
 /// C11 writer scenario (start_file a, write, start_file b, write, finish, drop): the sink's I/O call number 15 fails (whatever its kind: write, seek or flush). No call panics - neither then nor later, incl. the implicit finalisation on drop -, the failure is reported by some call, and a failure-free run yields exactly the reference archive.
-// @h prop=C11,C12 tier=quick t=300 mem=4 name=c11_writer_fault_k015 uws="fn:^std::ptr::drop_glue::<:2;fn:Drop>::drop$:2;fn:drop_box_raw:2;fn:^std::mem::drop::<:2"
+// @h prop=C11 tier=quick t=300 mem=4 name=c11_writer_fault_k015 uws="fn:^std::ptr::drop_glue::<:2;fn:Drop>::drop$:2;fn:drop_box_raw:2;fn:^std::mem::drop::<:2"
 c11_fault_at!(c11_writer_fault_k015, 15);
 /// C11 writer scenario (start_file a, write, start_file b, write, finish, drop): the sink's I/O call number 16 fails (whatever its kind: write, seek or flush). No call panics - neither then nor later, incl. the implicit finalisation on drop -, the failure is reported by some call, and a failure-free run yields exactly the reference archive.
-// @h prop=C11,C12 tier=quick t=300 mem=4 name=c11_writer_fault_k016 uws="fn:^std::ptr::drop_glue::<:2;fn:Drop>::drop$:2;fn:drop_box_raw:2;fn:^std::mem::drop::<:2"
+// @h prop=C11 tier=quick t=300 mem=4 name=c11_writer_fault_k016 uws="fn:^std::ptr::drop_glue::<:2;fn:Drop>::drop$:2;fn:drop_box_raw:2;fn:^std::mem::drop::<:2"
 c11_fault_at!(c11_writer_fault_k016, 16);
 /// C11 writer scenario (start_file a, write, start_file b, write, finish, drop): the sink's I/O call number 17 fails (whatever its kind: write, seek or flush). No call panics - neither then nor later, incl. the implicit finalisation on drop -, the failure is reported by some call, and a failure-free run yields exactly the reference archive.
-// @h prop=C11,C12 tier=quick t=1500 mem=14 name=c11_writer_fault_k017 uws="fn:^std::ptr::drop_glue::<:2;fn:Drop>::drop$:2;fn:drop_box_raw:2;fn:^std::mem::drop::<:2"
+// @h prop=C11 tier=quick t=1500 mem=14 name=c11_writer_fault_k017 uws="fn:^std::ptr::drop_glue::<:2;fn:Drop>::drop$:2;fn:drop_box_raw:2;fn:^std::mem::drop::<:2"
 c11_fault_at!(c11_writer_fault_k017, 17);
 /// C11 writer scenario (start_file a, write, start_file b, write, finish, drop): the sink's I/O call number 18 fails (whatever its kind: write, seek or flush). No call panics - neither then nor later, incl. the implicit finalisation on drop -, the failure is reported by some call, and a failure-free run yields exactly the reference archive.
-// @h prop=C11,C12 tier=thorough t=1500 mem=14 name=c11_writer_fault_k018 uws="fn:^std::ptr::drop_glue::<:2;fn:Drop>::drop$:2;fn:drop_box_raw:2;fn:^std::mem::drop::<:2"
+// @h prop=C11 tier=thorough t=1500 mem=14 name=c11_writer_fault_k018 uws="fn:^std::ptr::drop_glue::<:2;fn:Drop>::drop$:2;fn:drop_box_raw:2;fn:^std::mem::drop::<:2"
 c11_fault_at!(c11_writer_fault_k018, 18);
 /// C11 writer scenario (start_file a, write, start_file b, write, finish, drop): the sink's I/O call number 19 fails (whatever its kind: write, seek or flush). No call panics - neither then nor later, incl. the implicit finalisation on drop -, the failure is reported by some call, and a failure-free run yields exactly the reference archive.
-// @h prop=C11,C12 tier=thorough t=1500 mem=14 name=c11_writer_fault_k019 uws="fn:^std::ptr::drop_glue::<:2;fn:Drop>::drop$:2;fn:drop_box_raw:2;fn:^std::mem::drop::<:2"
+// @h prop=C11 tier=thorough t=1500 mem=14 name=c11_writer_fault_k019 uws="fn:^std::ptr::drop_glue::<:2;fn:Drop>::drop$:2;fn:drop_box_raw:2;fn:^std::mem::drop::<:2"
 c11_fault_at!(c11_writer_fault_k019, 19);
 /// C11 writer scenario (start_file a, write, start_file b, write, finish, drop): the sink's I/O call number 20 fails (whatever its kind: write, seek or flush). No call panics - neither then nor later, incl. the implicit finalisation on drop -, the failure is reported by some call, and a failure-free run yields exactly the reference archive.
-// @h prop=C11,C12 tier=thorough t=1500 mem=14 name=c11_writer_fault_k020 uws="fn:^std::ptr::drop_glue::<:2;fn:Drop>::drop$:2;fn:drop_box_raw:2;fn:^std::mem::drop::<:2"
+// @h prop=C11 tier=thorough t=1500 mem=14 name=c11_writer_fault_k020 uws="fn:^std::ptr::drop_glue::<:2;fn:Drop>::drop$:2;fn:drop_box_raw:2;fn:^std::mem::drop::<:2"
 c11_fault_at!(c11_writer_fault_k020, 20);
 /// C11 writer scenario (start_file a, write, start_file b, write, finish, drop): the sink's I/O call number 21 fails (whatever its kind: write, seek or flush). No call panics - neither then nor later, incl. the implicit finalisation on drop -, the failure is reported by some call, and a failure-free run yields exactly the reference archive.
-// @h prop=C11,C12 tier=quick t=300 mem=4 name=c11_writer_fault_k021 uws="fn:^std::ptr::drop_glue::<:2;fn:Drop>::drop$:2;fn:drop_box_raw:2;fn:^std::mem::drop::<:2"
+// @h prop=C11 tier=quick t=300 mem=4 name=c11_writer_fault_k021 uws="fn:^std::ptr::drop_glue::<:2;fn:Drop>::drop$:2;fn:drop_box_raw:2;fn:^std::mem::drop::<:2"
 c11_fault_at!(c11_writer_fault_k021, 21);
 /// C11 writer scenario (start_file a, write, start_file b, write, finish, drop): the sink's I/O call number 22 fails (whatever its kind: write, seek or flush). No call panics - neither then nor later, incl. the implicit finalisation on drop -, the failure is reported by some call, and a failure-free run yields exactly the reference archive.
-// @h prop=C11,C12 tier=thorough t=300 mem=4 name=c11_writer_fault_k022 uws="fn:^std::ptr::drop_glue::<:2;fn:Drop>::drop$:2;fn:drop_box_raw:2;fn:^std::mem::drop::<:2"
+// @h prop=C11 tier=thorough t=300 mem=4 name=c11_writer_fault_k022 uws="fn:^std::ptr::drop_glue::<:2;fn:Drop>::drop$:2;fn:drop_box_raw:2;fn:^std::mem::drop::<:2"
 c11_fault_at!(c11_writer_fault_k022, 22);
 /// C11 writer scenario (start_file a, write, start_file b, write, finish, drop): the sink's I/O call number 23 fails (whatever its kind: write, seek or flush). No call panics - neither then nor later, incl. the implicit finalisation on drop -, the failure is reported by some call, and a failure-free run yields exactly the reference archive.
-// @h prop=C11,C12 tier=thorough t=300 mem=4 name=c11_writer_fault_k023 uws="fn:^std::ptr::drop_glue::<:2;fn:Drop>::drop$:2;fn:drop_box_raw:2;fn:^std::mem::drop::<:2"
+// @h prop=C11 tier=thorough t=300 mem=4 name=c11_writer_fault_k023 uws="fn:^std::ptr::drop_glue::<:2;fn:Drop>::drop$:2;fn:drop_box_raw:2;fn:^std::mem::drop::<:2"
 c11_fault_at!(c11_writer_fault_k023, 23);
 /// C11 writer scenario (start_file a, write, start_file b, write, finish, drop): the sink's I/O call number 24 fails (whatever its kind: write, seek or flush). No call panics - neither then nor later, incl. the implicit finalisation on drop -, the failure is reported by some call, and a failure-free run yields exactly the reference archive.
-// @h prop=C11,C12 tier=thorough t=300 mem=4 name=c11_writer_fault_k024 uws="fn:^std::ptr::drop_glue::<:2;fn:Drop>::drop$:2;fn:drop_box_raw:2;fn:^std::mem::drop::<:2"
+// @h prop=C11 tier=thorough t=300 mem=4 name=c11_writer_fault_k024 uws="fn:^std::ptr::drop_glue::<:2;fn:Drop>::drop$:2;fn:drop_box_raw:2;fn:^std::mem::drop::<:2"
 c11_fault_at!(c11_writer_fault_k024, 24);
 /// C11 writer scenario (start_file a, write, start_file b, write, finish, drop): the sink's I/O call number 25 fails (whatever its kind: write, seek or flush). No call panics - neither then nor later, incl. the implicit finalisation on drop -, the failure is reported by some call, and a failure-free run yields exactly the reference archive.
-// @h prop=C11,C12 tier=thorough t=300 mem=4 name=c11_writer_fault_k025 uws="fn:^std::ptr::drop_glue::<:2;fn:Drop>::drop$:2;fn:drop_box_raw:2;fn:^std::mem::drop::<:2"
+// @h prop=C11 tier=thorough t=300 mem=4 name=c11_writer_fault_k025 uws="fn:^std::ptr::drop_glue::<:2;fn:Drop>::drop$:2;fn:drop_box_raw:2;fn:^std::mem::drop::<:2"
 c11_fault_at!(c11_writer_fault_k025, 25);
 /// C11 writer scenario (start_file a, write, start_file b, write, finish, drop): the sink's I/O call number 26 fails (whatever its kind: write, seek or flush). No call panics - neither then nor later, incl. the implicit finalisation on drop -, the failure is reported by some call, and a failure-free run yields exactly the reference archive.
-// @h prop=C11,C12 tier=thorough t=300 mem=4 name=c11_writer_fault_k026 uws="fn:^std::ptr::drop_glue::<:2;fn:Drop>::drop$:2;fn:drop_box_raw:2;fn:^std::mem::drop::<:2"
+// @h prop=C11 tier=thorough t=300 mem=4 name=c11_writer_fault_k026 uws="fn:^std::ptr::drop_glue::<:2;fn:Drop>::drop$:2;fn:drop_box_raw:2;fn:^std::mem::drop::<:2"
 c11_fault_at!(c11_writer_fault_k026, 26);
 /// C11 writer scenario (start_file a, write, start_file b, write, finish, drop): the sink's I/O call number 27 fails (whatever its kind: write, seek or flush). No call panics - neither then nor later, incl. the implicit finalisation on drop -, the failure is reported by some call, and a failure-free run yields exactly the reference archive.
-// @h prop=C11,C12 tier=thorough t=300 mem=4 name=c11_writer_fault_k027 uws="fn:^std::ptr::drop_glue::<:2;fn:Drop>::drop$:2;fn:drop_box_raw:2;fn:^std::mem::drop::<:2"
+// @h prop=C11 tier=thorough t=300 mem=4 name=c11_writer_fault_k027 uws="fn:^std::ptr::drop_glue::<:2;fn:Drop>::drop$:2;fn:drop_box_raw:2;fn:^std::mem::drop::<:2"
 c11_fault_at!(c11_writer_fault_k027, 27);
 /// C11 writer scenario (start_file a, write, start_file b, write, finish, drop): the sink's I/O call number 28 fails (whatever its kind: write, seek or flush). No call panics - neither then nor later, incl. the implicit finalisation on drop -, the failure is reported by some call, and a failure-free run yields exactly the reference archive.
-// @h prop=C11,C12 tier=thorough t=300 mem=4 name=c11_writer_fault_k028 uws="fn:^std::ptr::drop_glue::<:2;fn:Drop>::drop$:2;fn:drop_box_raw:2;fn:^std::mem::drop::<:2"
+// @h prop=C11 tier=thorough t=300 mem=4 name=c11_writer_fault_k028 uws="fn:^std::ptr::drop_glue::<:2;fn:Drop>::drop$:2;fn:drop_box_raw:2;fn:^std::mem::drop::<:2"
 c11_fault_at!(c11_writer_fault_k028, 28);
 /// C11 writer scenario (start_file a, write, start_file b, write, finish, drop): the sink's I/O call number 29 fails (whatever its kind: write, seek or flush). No call panics - neither then nor later, incl. the implicit finalisation on drop -, the failure is reported by some call, and a failure-free run yields exactly the reference archive.
-// @h prop=C11,C12 tier=thorough t=300 mem=4 name=c11_writer_fault_k029 uws="fn:^std::ptr::drop_glue::<:2;fn:Drop>::drop$:2;fn:drop_box_raw:2;fn:^std::mem::drop::<:2"
+// @h prop=C11 tier=thorough t=300 mem=4 name=c11_writer_fault_k029 uws="fn:^std::ptr::drop_glue::<:2;fn:Drop>::drop$:2;fn:drop_box_raw:2;fn:^std::mem::drop::<:2"
 c11_fault_at!(c11_writer_fault_k029, 29);
 /// C11 writer scenario (start_file a, write, start_file b, write, finish, drop): the sink's I/O call number 30 fails (whatever its kind: write, seek or flush). No call panics - neither then nor later, incl. the implicit finalisation on drop -, the failure is reported by some call, and a failure-free run yields exactly the reference archive.
-// @h prop=C11,C12 tier=thorough t=300 mem=4 name=c11_writer_fault_k030 uws="fn:^std::ptr::drop_glue::<:2;fn:Drop>::drop$:2;fn:drop_box_raw:2;fn:^std::mem::drop::<:2"
+// @h prop=C11 tier=thorough t=300 mem=4 name=c11_writer_fault_k030 uws="fn:^std::ptr::drop_glue::<:2;fn:Drop>::drop$:2;fn:drop_box_raw:2;fn:^std::mem::drop::<:2"
 c11_fault_at!(c11_writer_fault_k030, 30);
 /// C11 writer scenario (start_file a, write, start_file b, write, finish, drop): the sink's I/O call number 31 fails (whatever its kind: write, seek or flush). No call panics - neither then nor later, incl. the implicit finalisation on drop -, the failure is reported by some call, and a failure-free run yields exactly the reference archive.
-// @h prop=C11,C12 tier=thorough t=300 mem=4 name=c11_writer_fault_k031 uws="fn:^std::ptr::drop_glue::<:2;fn:Drop>::drop$:2;fn:drop_box_raw:2;fn:^std::mem::drop::<:2"
+// @h prop=C11 tier=thorough t=300 mem=4 name=c11_writer_fault_k031 uws="fn:^std::ptr::drop_glue::<:2;fn:Drop>::drop$:2;fn:drop_box_raw:2;fn:^std::mem::drop::<:2"
 c11_fault_at!(c11_writer_fault_k031, 31);
 /// C11 writer scenario (start_file a, write, start_file b, write, finish, drop): the sink's I/O call number 32 fails (whatever its kind: write, seek or flush). No call panics - neither then nor later, incl. the implicit finalisation on drop -, the failure is reported by some call, and a failure-free run yields exactly the reference archive.
-// @h prop=C11,C12 tier=thorough t=300 mem=4 name=c11_writer_fault_k032 uws="fn:^std::ptr::drop_glue::<:2;fn:Drop>::drop$:2;fn:drop_box_raw:2;fn:^std::mem::drop::<:2"
+// @h prop=C11 tier=thorough t=300 mem=4 name=c11_writer_fault_k032 uws="fn:^std::ptr::drop_glue::<:2;fn:Drop>::drop$:2;fn:drop_box_raw:2;fn:^std::mem::drop::<:2"
 c11_fault_at!(c11_writer_fault_k032, 32);
 /// C11 writer scenario (start_file a, write, start_file b, write, finish, drop): the sink's I/O call number 33 fails (whatever its kind: write, seek or flush). No call panics - neither then nor later, incl. the implicit finalisation on drop -, the failure is reported by some call, and a failure-free run yields exactly the reference archive.
-// @h prop=C11,C12 tier=thorough t=300 mem=4 name=c11_writer_fault_k033 uws="fn:^std::ptr::drop_glue::<:2;fn:Drop>::drop$:2;fn:drop_box_raw:2;fn:^std::mem::drop::<:2"
+// @h prop=C11 tier=thorough t=300 mem=4 name=c11_writer_fault_k033 uws="fn:^std::ptr::drop_glue::<:2;fn:Drop>::drop$:2;fn:drop_box_raw:2;fn:^std::mem::drop::<:2"
 c11_fault_at!(c11_writer_fault_k033, 33);
 /// C11 writer scenario (start_file a, write, start_file b, write, finish, drop): the sink's I/O call number 34 fails (whatever its kind: write, seek or flush). No call panics - neither then nor later, incl. the implicit finalisation on drop -, the failure is reported by some call, and a failure-free run yields exactly the reference archive.
-// @h prop=C11,C12 tier=quick t=300 mem=4 name=c11_writer_fault_k034 uws="fn:^std::ptr::drop_glue::<:2;fn:Drop>::drop$:2;fn:drop_box_raw:2;fn:^std::mem::drop::<:2"
+// @h prop=C11 tier=quick t=300 mem=4 name=c11_writer_fault_k034 uws="fn:^std::ptr::drop_glue::<:2;fn:Drop>::drop$:2;fn:drop_box_raw:2;fn:^std::mem::drop::<:2"
 c11_fault_at!(c11_writer_fault_k034, 34);
 /// C11 writer scenario (start_file a, write, start_file b, write, finish, drop): the sink's I/O call number 35 fails (whatever its kind: write, seek or flush). No call panics - neither then nor later, incl. the implicit finalisation on drop -, the failure is reported by some call, and a failure-free run yields exactly the reference archive.
-// @h prop=C11,C12 tier=quick t=300 mem=4 name=c11_writer_fault_k035 uws="fn:^std::ptr::drop_glue::<:2;fn:Drop>::drop$:2;fn:drop_box_raw:2;fn:^std::mem::drop::<:2"
+// @h prop=C11 tier=quick t=300 mem=4 name=c11_writer_fault_k035 uws="fn:^std::ptr::drop_glue::<:2;fn:Drop>::drop$:2;fn:drop_box_raw:2;fn:^std::mem::drop::<:2"
 c11_fault_at!(c11_writer_fault_k035, 35);
 /// C11 writer scenario (start_file a, write, start_file b, write, finish, drop): the sink's I/O call number 36 fails (whatever its kind: write, seek or flush). No call panics - neither then nor later, incl. the implicit finalisation on drop -, the failure is reported by some call, and a failure-free run yields exactly the reference archive.
-// @h prop=C11,C12 tier=quick t=300 mem=4 name=c11_writer_fault_k036 uws="fn:^std::ptr::drop_glue::<:2;fn:Drop>::drop$:2;fn:drop_box_raw:2;fn:^std::mem::drop::<:2"
+// @h prop=C11 tier=quick t=300 mem=4 name=c11_writer_fault_k036 uws="fn:^std::ptr::drop_glue::<:2;fn:Drop>::drop$:2;fn:drop_box_raw:2;fn:^std::mem::drop::<:2"
 c11_fault_at!(c11_writer_fault_k036, 36);
 /// C11 writer scenario (start_file a, write, start_file b, write, finish, drop): the sink's I/O call number 37 fails (whatever its kind: write, seek or flush). No call panics - neither then nor later, incl. the implicit finalisation on drop -, the failure is reported by some call, and a failure-free run yields exactly the reference archive.
-// @h prop=C11,C12 tier=quick t=300 mem=4 name=c11_writer_fault_k037 uws="fn:^std::ptr::drop_glue::<:2;fn:Drop>::drop$:2;fn:drop_box_raw:2;fn:^std::mem::drop::<:2"
+// @h prop=C11 tier=quick t=300 mem=4 name=c11_writer_fault_k037 uws="fn:^std::ptr::drop_glue::<:2;fn:Drop>::drop$:2;fn:drop_box_raw:2;fn:^std::mem::drop::<:2"
 c11_fault_at!(c11_writer_fault_k037, 37);
 /// C11 writer scenario (start_file a, write, start_file b, write, finish, drop): the sink's I/O call number 38 fails (whatever its kind: write, seek or flush). No call panics - neither then nor later, incl. the implicit finalisation on drop -, the failure is reported by some call, and a failure-free run yields exactly the reference archive.
-// @h prop=C11,C12 tier=thorough t=1500 mem=14 name=c11_writer_fault_k038 uws="fn:^std::ptr::drop_glue::<:2;fn:Drop>::drop$:2;fn:drop_box_raw:2;fn:^std::mem::drop::<:2"
+// @h prop=C11 tier=thorough t=1500 mem=14 name=c11_writer_fault_k038 uws="fn:^std::ptr::drop_glue::<:2;fn:Drop>::drop$:2;fn:drop_box_raw:2;fn:^std::mem::drop::<:2"
 c11_fault_at!(c11_writer_fault_k038, 38);
 /// C11 writer scenario (start_file a, write, start_file b, write, finish, drop): the sink's I/O call number 39 fails (whatever its kind: write, seek or flush). No call panics - neither then nor later, incl. the implicit finalisation on drop -, the failure is reported by some call, and a failure-free run yields exactly the reference archive.
-// @h prop=C11,C12 tier=thorough t=1500 mem=14 name=c11_writer_fault_k039 uws="fn:^std::ptr::drop_glue::<:2;fn:Drop>::drop$:2;fn:drop_box_raw:2;fn:^std::mem::drop::<:2"
+// @h prop=C11 tier=thorough t=1500 mem=14 name=c11_writer_fault_k039 uws="fn:^std::ptr::drop_glue::<:2;fn:Drop>::drop$:2;fn:drop_box_raw:2;fn:^std::mem::drop::<:2"
 c11_fault_at!(c11_writer_fault_k039, 39);
 /// C11 writer scenario (start_file a, write, start_file b, write, finish, drop): the sink's I/O call number 40 fails (whatever its kind: write, seek or flush). No call panics - neither then nor later, incl. the implicit finalisation on drop -, the failure is reported by some call, and a failure-free run yields exactly the reference archive.
-// @h prop=C11,C12 tier=thorough t=1500 mem=14 name=c11_writer_fault_k040 uws="fn:^std::ptr::drop_glue::<:2;fn:Drop>::drop$:2;fn:drop_box_raw:2;fn:^std::mem::drop::<:2"
+// @h prop=C11 tier=thorough t=1500 mem=14 name=c11_writer_fault_k040 uws="fn:^std::ptr::drop_glue::<:2;fn:Drop>::drop$:2;fn:drop_box_raw:2;fn:^std::mem::drop::<:2"
 c11_fault_at!(c11_writer_fault_k040, 40);
 /// C11 writer scenario (start_file a, write, start_file b, write, finish, drop): the sink's I/O call number 41 fails (whatever its kind: write, seek or flush). No call panics - neither then nor later, incl. the implicit finalisation on drop -, the failure is reported by some call, and a failure-free run yields exactly the reference archive.
-// @h prop=C11,C12 tier=thorough t=1500 mem=14 name=c11_writer_fault_k041 uws="fn:^std::ptr::drop_glue::<:2;fn:Drop>::drop$:2;fn:drop_box_raw:2;fn:^std::mem::drop::<:2"
+// @h prop=C11 tier=thorough t=1500 mem=14 name=c11_writer_fault_k041 uws="fn:^std::ptr::drop_glue::<:2;fn:Drop>::drop$:2;fn:drop_box_raw:2;fn:^std::mem::drop::<:2"
 c11_fault_at!(c11_writer_fault_k041, 41);
 /// C11 writer scenario (start_file a, write, start_file b, write, finish, drop): the sink's I/O call number 42 fails (whatever its kind: write, seek or flush). No call panics - neither then nor later, incl. the implicit finalisation on drop -, the failure is reported by some call, and a failure-free run yields exactly the reference archive.
-// @h prop=C11,C12 tier=quick t=300 mem=4 name=c11_writer_fault_k042 uws="fn:^std::ptr::drop_glue::<:2;fn:Drop>::drop$:2;fn:drop_box_raw:2;fn:^std::mem::drop::<:2"
+// @h prop=C11 tier=quick t=300 mem=4 name=c11_writer_fault_k042 uws="fn:^std::ptr::drop_glue::<:2;fn:Drop>::drop$:2;fn:drop_box_raw:2;fn:^std::mem::drop::<:2"
 c11_fault_at!(c11_writer_fault_k042, 42);
 /// C11 writer scenario (start_file a, write, start_file b, write, finish, drop): the sink's I/O call number 43 fails (whatever its kind: write, seek or flush). No call panics - neither then nor later, incl. the implicit finalisation on drop -, the failure is reported by some call, and a failure-free run yields exactly the reference archive.
-// @h prop=C11,C12 tier=thorough t=300 mem=4 name=c11_writer_fault_k043 uws="fn:^std::ptr::drop_glue::<:2;fn:Drop>::drop$:2;fn:drop_box_raw:2;fn:^std::mem::drop::<:2"
+// @h prop=C11 tier=thorough t=300 mem=4 name=c11_writer_fault_k043 uws="fn:^std::ptr::drop_glue::<:2;fn:Drop>::drop$:2;fn:drop_box_raw:2;fn:^std::mem::drop::<:2"
 c11_fault_at!(c11_writer_fault_k043, 43);
 /// C11 writer scenario (start_file a, write, start_file b, write, finish, drop): the sink's I/O call number 44 fails (whatever its kind: write, seek or flush). No call panics - neither then nor later, incl. the implicit finalisation on drop -, the failure is reported by some call, and a failure-free run yields exactly the reference archive.
-// @h prop=C11,C12 tier=thorough t=300 mem=4 name=c11_writer_fault_k044 uws="fn:^std::ptr::drop_glue::<:2;fn:Drop>::drop$:2;fn:drop_box_raw:2;fn:^std::mem::drop::<:2"
+// @h prop=C11 tier=thorough t=300 mem=4 name=c11_writer_fault_k044 uws="fn:^std::ptr::drop_glue::<:2;fn:Drop>::drop$:2;fn:drop_box_raw:2;fn:^std::mem::drop::<:2"
 c11_fault_at!(c11_writer_fault_k044, 44);
 /// C11 writer scenario (start_file a, write, start_file b, write, finish, drop): the sink's I/O call number 45 fails (whatever its kind: write, seek or flush). No call panics - neither then nor later, incl. the implicit finalisation on drop -, the failure is reported by some call, and a failure-free run yields exactly the reference archive.
-// @h prop=C11,C12 tier=thorough t=300 mem=4 name=c11_writer_fault_k045 uws="fn:^std::ptr::drop_glue::<:2;fn:Drop>::drop$:2;fn:drop_box_raw:2;fn:^std::mem::drop::<:2"
+// @h prop=C11 tier=thorough t=300 mem=4 name=c11_writer_fault_k045 uws="fn:^std::ptr::drop_glue::<:2;fn:Drop>::drop$:2;fn:drop_box_raw:2;fn:^std::mem::drop::<:2"
 c11_fault_at!(c11_writer_fault_k045, 45);
 /// C11 writer scenario (start_file a, write, start_file b, write, finish, drop): the sink's I/O call number 46 fails (whatever its kind: write, seek or flush). No call panics - neither then nor later, incl. the implicit finalisation on drop -, the failure is reported by some call, and a failure-free run yields exactly the reference archive.
-// @h prop=C11,C12 tier=thorough t=300 mem=4 name=c11_writer_fault_k046 uws="fn:^std::ptr::drop_glue::<:2;fn:Drop>::drop$:2;fn:drop_box_raw:2;fn:^std::mem::drop::<:2"
+// @h prop=C11 tier=thorough t=300 mem=4 name=c11_writer_fault_k046 uws="fn:^std::ptr::drop_glue::<:2;fn:Drop>::drop$:2;fn:drop_box_raw:2;fn:^std::mem::drop::<:2"
 c11_fault_at!(c11_writer_fault_k046, 46);
 /// C11 writer scenario (start_file a, write, start_file b, write, finish, drop): the sink's I/O call number 47 fails (whatever its kind: write, seek or flush). No call panics - neither then nor later, incl. the implicit finalisation on drop -, the failure is reported by some call, and a failure-free run yields exactly the reference archive.
-// @h prop=C11,C12 tier=thorough t=300 mem=4 name=c11_writer_fault_k047 uws="fn:^std::ptr::drop_glue::<:2;fn:Drop>::drop$:2;fn:drop_box_raw:2;fn:^std::mem::drop::<:2"
+// @h prop=C11 tier=thorough t=300 mem=4 name=c11_writer_fault_k047 uws="fn:^std::ptr::drop_glue::<:2;fn:Drop>::drop$:2;fn:drop_box_raw:2;fn:^std::mem::drop::<:2"
 c11_fault_at!(c11_writer_fault_k047, 47);
 /// C11 writer scenario (start_file a, write, start_file b, write, finish, drop): the sink's I/O call number 48 fails (whatever its kind: write, seek or flush). No call panics - neither then nor later, incl. the implicit finalisation on drop -, the failure is reported by some call, and a failure-free run yields exactly the reference archive.
-// @h prop=C11,C12 tier=thorough t=300 mem=4 name=c11_writer_fault_k048 uws="fn:^std::ptr::drop_glue::<:2;fn:Drop>::drop$:2;fn:drop_box_raw:2;fn:^std::mem::drop::<:2"
+// @h prop=C11 tier=thorough t=300 mem=4 name=c11_writer_fault_k048 uws="fn:^std::ptr::drop_glue::<:2;fn:Drop>::drop$:2;fn:drop_box_raw:2;fn:^std::mem::drop::<:2"
 c11_fault_at!(c11_writer_fault_k048, 48);
 /// C11 writer scenario (start_file a, write, start_file b, write, finish, drop): the sink's I/O call number 49 fails (whatever its kind: write, seek or flush). No call panics - neither then nor later, incl. the implicit finalisation on drop -, the failure is reported by some call, and a failure-free run yields exactly the reference archive.
-// @h prop=C11,C12 tier=thorough t=300 mem=4 name=c11_writer_fault_k049 uws="fn:^std::ptr::drop_glue::<:2;fn:Drop>::drop$:2;fn:drop_box_raw:2;fn:^std::mem::drop::<:2"
+// @h prop=C11 tier=thorough t=300 mem=4 name=c11_writer_fault_k049 uws="fn:^std::ptr::drop_glue::<:2;fn:Drop>::drop$:2;fn:drop_box_raw:2;fn:^std::mem::drop::<:2"
 c11_fault_at!(c11_writer_fault_k049, 49);
 /// C11 writer scenario (start_file a, write, start_file b, write, finish, drop): the sink's I/O call number 50 fails (whatever its kind: write, seek or flush). No call panics - neither then nor later, incl. the implicit finalisation on drop -, the failure is reported by some call, and a failure-free run yields exactly the reference archive.
-// @h prop=C11,C12 tier=thorough t=300 mem=4 name=c11_writer_fault_k050 uws="fn:^std::ptr::drop_glue::<:2;fn:Drop>::drop$:2;fn:drop_box_raw:2;fn:^std::mem::drop::<:2"
+// @h prop=C11 tier=thorough t=300 mem=4 name=c11_writer_fault_k050 uws="fn:^std::ptr::drop_glue::<:2;fn:Drop>::drop$:2;fn:drop_box_raw:2;fn:^std::mem::drop::<:2"
 c11_fault_at!(c11_writer_fault_k050, 50);
 /// C11 writer scenario (start_file a, write, start_file b, write, finish, drop): the sink's I/O call number 51 fails (whatever its kind: write, seek or flush). No call panics - neither then nor later, incl. the implicit finalisation on drop -, the failure is reported by some call, and a failure-free run yields exactly the reference archive.
-// @h prop=C11,C12 tier=thorough t=300 mem=4 name=c11_writer_fault_k051 uws="fn:^std::ptr::drop_glue::<:2;fn:Drop>::drop$:2;fn:drop_box_raw:2;fn:^std::mem::drop::<:2"
+// @h prop=C11 tier=thorough t=300 mem=4 name=c11_writer_fault_k051 uws="fn:^std::ptr::drop_glue::<:2;fn:Drop>::drop$:2;fn:drop_box_raw:2;fn:^std::mem::drop::<:2"
 c11_fault_at!(c11_writer_fault_k051, 51);
 /// C11 writer scenario (start_file a, write, start_file b, write, finish, drop): the sink's I/O call number 52 fails (whatever its kind: write, seek or flush). No call panics - neither then nor later, incl. the implicit finalisation on drop -, the failure is reported by some call, and a failure-free run yields exactly the reference archive.
-// @h prop=C11,C12 tier=thorough t=300 mem=4 name=c11_writer_fault_k052 uws="fn:^std::ptr::drop_glue::<:2;fn:Drop>::drop$:2;fn:drop_box_raw:2;fn:^std::mem::drop::<:2"
+// @h prop=C11 tier=thorough t=300 mem=4 name=c11_writer_fault_k052 uws="fn:^std::ptr::drop_glue::<:2;fn:Drop>::drop$:2;fn:drop_box_raw:2;fn:^std::mem::drop::<:2"
 c11_fault_at!(c11_writer_fault_k052, 52);
 /// C11 writer scenario (start_file a, write, start_file b, write, finish, drop): the sink's I/O call number 53 fails (whatever its kind: write, seek or flush). No call panics - neither then nor later, incl. the implicit finalisation on drop -, the failure is reported by some call, and a failure-free run yields exactly the reference archive.
-// @h prop=C11,C12 tier=thorough t=300 mem=4 name=c11_writer_fault_k053 uws="fn:^std::ptr::drop_glue::<:2;fn:Drop>::drop$:2;fn:drop_box_raw:2;fn:^std::mem::drop::<:2"
+// @h prop=C11 tier=thorough t=300 mem=4 name=c11_writer_fault_k053 uws="fn:^std::ptr::drop_glue::<:2;fn:Drop>::drop$:2;fn:drop_box_raw:2;fn:^std::mem::drop::<:2"
 c11_fault_at!(c11_writer_fault_k053, 53);
 /// C11 writer scenario (start_file a, write, start_file b, write, finish, drop): the sink's I/O call number 54 fails (whatever its kind: write, seek or flush). No call panics - neither then nor later, incl. the implicit finalisation on drop -, the failure is reported by some call, and a failure-free run yields exactly the reference archive.
-// @h prop=C11,C12 tier=thorough t=300 mem=4 name=c11_writer_fault_k054 uws="fn:^std::ptr::drop_glue::<:2;fn:Drop>::drop$:2;fn:drop_box_raw:2;fn:^std::mem::drop::<:2"
+// @h prop=C11 tier=thorough t=300 mem=4 name=c11_writer_fault_k054 uws="fn:^std::ptr::drop_glue::<:2;fn:Drop>::drop$:2;fn:drop_box_raw:2;fn:^std::mem::drop::<:2"
 c11_fault_at!(c11_writer_fault_k054, 54);
 /// C11 writer scenario (start_file a, write, start_file b, write, finish, drop): the sink's I/O call number 55 fails (whatever its kind: write, seek or flush). No call panics - neither then nor later, incl. the implicit finalisation on drop -, the failure is reported by some call, and a failure-free run yields exactly the reference archive.
-// @h prop=C11,C12 tier=thorough t=300 mem=4 name=c11_writer_fault_k055 uws="fn:^std::ptr::drop_glue::<:2;fn:Drop>::drop$:2;fn:drop_box_raw:2;fn:^std::mem::drop::<:2"
+// @h prop=C11 tier=thorough t=300 mem=4 name=c11_writer_fault_k055 uws="fn:^std::ptr::drop_glue::<:2;fn:Drop>::drop$:2;fn:drop_box_raw:2;fn:^std::mem::drop::<:2"
 c11_fault_at!(c11_writer_fault_k055, 55);
 /// C11 writer scenario (start_file a, write, start_file b, write, finish, drop): the sink's I/O call number 56 fails (whatever its kind: write, seek or flush). No call panics - neither then nor later, incl. the implicit finalisation on drop -, the failure is reported by some call, and a failure-free run yields exactly the reference archive.
-// @h prop=C11,C12 tier=thorough t=300 mem=4 name=c11_writer_fault_k056 uws="fn:^std::ptr::drop_glue::<:2;fn:Drop>::drop$:2;fn:drop_box_raw:2;fn:^std::mem::drop::<:2"
+// @h prop=C11 tier=thorough t=300 mem=4 name=c11_writer_fault_k056 uws="fn:^std::ptr::drop_glue::<:2;fn:Drop>::drop$:2;fn:drop_box_raw:2;fn:^std::mem::drop::<:2"
 c11_fault_at!(c11_writer_fault_k056, 56);
 /// C11 writer scenario (start_file a, write, start_file b, write, finish, drop): the sink's I/O call number 57 fails (whatever its kind: write, seek or flush). No call panics - neither then nor later, incl. the implicit finalisation on drop -, the failure is reported by some call, and a failure-free run yields exactly the reference archive.
-// @h prop=C11,C12 tier=thorough t=300 mem=4 name=c11_writer_fault_k057 uws="fn:^std::ptr::drop_glue::<:2;fn:Drop>::drop$:2;fn:drop_box_raw:2;fn:^std::mem::drop::<:2"
+// @h prop=C11 tier=thorough t=300 mem=4 name=c11_writer_fault_k057 uws="fn:^std::ptr::drop_glue::<:2;fn:Drop>::drop$:2;fn:drop_box_raw:2;fn:^std::mem::drop::<:2"
 c11_fault_at!(c11_writer_fault_k057, 57);
 /// C11 writer scenario (start_file a, write, start_file b, write, finish, drop): the sink's I/O call number 58 fails (whatever its kind: write, seek or flush). No call panics - neither then nor later, incl. the implicit finalisation on drop -, the failure is reported by some call, and a failure-free run yields exactly the reference archive.
-// @h prop=C11,C12 tier=thorough t=300 mem=4 name=c11_writer_fault_k058 uws="fn:^std::ptr::drop_glue::<:2;fn:Drop>::drop$:2;fn:drop_box_raw:2;fn:^std::mem::drop::<:2"
+// @h prop=C11 tier=thorough t=300 mem=4 name=c11_writer_fault_k058 uws="fn:^std::ptr::drop_glue::<:2;fn:Drop>::drop$:2;fn:drop_box_raw:2;fn:^std::mem::drop::<:2"
 c11_fault_at!(c11_writer_fault_k058, 58);
 /// C11 writer scenario (start_file a, write, start_file b, write, finish, drop): the sink's I/O call number 59 fails (whatever its kind: write, seek or flush). No call panics - neither then nor later, incl. the implicit finalisation on drop -, the failure is reported by some call, and a failure-free run yields exactly the reference archive.
-// @h prop=C11,C12 tier=thorough t=300 mem=4 name=c11_writer_fault_k059 uws="fn:^std::ptr::drop_glue::<:2;fn:Drop>::drop$:2;fn:drop_box_raw:2;fn:^std::mem::drop::<:2"
+// @h prop=C11 tier=thorough t=300 mem=4 name=c11_writer_fault_k059 uws="fn:^std::ptr::drop_glue::<:2;fn:Drop>::drop$:2;fn:drop_box_raw:2;fn:^std::mem::drop::<:2"
 c11_fault_at!(c11_writer_fault_k059, 59);
 /// C11 writer scenario (start_file a, write, start_file b, write, finish, drop): the sink's I/O call number 60 fails (whatever its kind: write, seek or flush). No call panics - neither then nor later, incl. the implicit finalisation on drop -, the failure is reported by some call, and a failure-free run yields exactly the reference archive.
-// @h prop=C11,C12 tier=quick t=300 mem=4 name=c11_writer_fault_k060 uws="fn:^std::ptr::drop_glue::<:2;fn:Drop>::drop$:2;fn:drop_box_raw:2;fn:^std::mem::drop::<:2"
+// @h prop=C11 tier=quick t=300 mem=4 name=c11_writer_fault_k060 uws="fn:^std::ptr::drop_glue::<:2;fn:Drop>::drop$:2;fn:drop_box_raw:2;fn:^std::mem::drop::<:2"
 c11_fault_at!(c11_writer_fault_k060, 60);
 /// C11 writer scenario (start_file a, write, start_file b, write, finish, drop): the sink's I/O call number 61 fails (whatever its kind: write, seek or flush). No call panics - neither then nor later, incl. the implicit finalisation on drop -, the failure is reported by some call, and a failure-free run yields exactly the reference archive.
-// @h prop=C11,C12 tier=thorough t=300 mem=4 name=c11_writer_fault_k061 uws="fn:^std::ptr::drop_glue::<:2;fn:Drop>::drop$:2;fn:drop_box_raw:2;fn:^std::mem::drop::<:2"
+// @h prop=C11 tier=thorough t=300 mem=4 name=c11_writer_fault_k061 uws="fn:^std::ptr::drop_glue::<:2;fn:Drop>::drop$:2;fn:drop_box_raw:2;fn:^std::mem::drop::<:2"
 c11_fault_at!(c11_writer_fault_k061, 61);
 /// C11 writer scenario (start_file a, write, start_file b, write, finish, drop): the sink's I/O call number 62 fails (whatever its kind: write, seek or flush). No call panics - neither then nor later, incl. the implicit finalisation on drop -, the failure is reported by some call, and a failure-free run yields exactly the reference archive.
-// @h prop=C11,C12 tier=thorough t=300 mem=4 name=c11_writer_fault_k062 uws="fn:^std::ptr::drop_glue::<:2;fn:Drop>::drop$:2;fn:drop_box_raw:2;fn:^std::mem::drop::<:2"
+// @h prop=C11 tier=thorough t=300 mem=4 name=c11_writer_fault_k062 uws="fn:^std::ptr::drop_glue::<:2;fn:Drop>::drop$:2;fn:drop_box_raw:2;fn:^std::mem::drop::<:2"
 c11_fault_at!(c11_writer_fault_k062, 62);
 /// C11 writer scenario (start_file a, write, start_file b, write, finish, drop): the sink's I/O call number 63 fails (whatever its kind: write, seek or flush). No call panics - neither then nor later, incl. the implicit finalisation on drop -, the failure is reported by some call, and a failure-free run yields exactly the reference archive.
-// @h prop=C11,C12 tier=thorough t=300 mem=4 name=c11_writer_fault_k063 uws="fn:^std::ptr::drop_glue::<:2;fn:Drop>::drop$:2;fn:drop_box_raw:2;fn:^std::mem::drop::<:2"
+// @h prop=C11 tier=thorough t=300 mem=4 name=c11_writer_fault_k063 uws="fn:^std::ptr::drop_glue::<:2;fn:Drop>::drop$:2;fn:drop_box_raw:2;fn:^std::mem::drop::<:2"
 c11_fault_at!(c11_writer_fault_k063, 63);
 /// C11 writer scenario (start_file a, write, start_file b, write, finish, drop): the sink's I/O call number 64 fails (whatever its kind: write, seek or flush). No call panics - neither then nor later, incl. the implicit finalisation on drop -, the failure is reported by some call, and a failure-free run yields exactly the reference archive.
-// @h prop=C11,C12 tier=thorough t=300 mem=4 name=c11_writer_fault_k064 uws="fn:^std::ptr::drop_glue::<:2;fn:Drop>::drop$:2;fn:drop_box_raw:2;fn:^std::mem::drop::<:2"
+// @h prop=C11 tier=thorough t=300 mem=4 name=c11_writer_fault_k064 uws="fn:^std::ptr::drop_glue::<:2;fn:Drop>::drop$:2;fn:drop_box_raw:2;fn:^std::mem::drop::<:2"
 c11_fault_at!(c11_writer_fault_k064, 64);
 /// C11 writer scenario (start_file a, write, start_file b, write, finish, drop): the sink's I/O call number 65 fails (whatever its kind: write, seek or flush). No call panics - neither then nor later, incl. the implicit finalisation on drop -, the failure is reported by some call, and a failure-free run yields exactly the reference archive.
-// @h prop=C11,C12 tier=thorough t=300 mem=4 name=c11_writer_fault_k065 uws="fn:^std::ptr::drop_glue::<:2;fn:Drop>::drop$:2;fn:drop_box_raw:2;fn:^std::mem::drop::<:2"
+// @h prop=C11 tier=thorough t=300 mem=4 name=c11_writer_fault_k065 uws="fn:^std::ptr::drop_glue::<:2;fn:Drop>::drop$:2;fn:drop_box_raw:2;fn:^std::mem::drop::<:2"
 c11_fault_at!(c11_writer_fault_k065, 65);
 /// C11 writer scenario (start_file a, write, start_file b, write, finish, drop): the sink's I/O call number 66 fails (whatever its kind: write, seek or flush). No call panics - neither then nor later, incl. the implicit finalisation on drop -, the failure is reported by some call, and a failure-free run yields exactly the reference archive.
-// @h prop=C11,C12 tier=thorough t=300 mem=4 name=c11_writer_fault_k066 uws="fn:^std::ptr::drop_glue::<:2;fn:Drop>::drop$:2;fn:drop_box_raw:2;fn:^std::mem::drop::<:2"
+// @h prop=C11 tier=thorough t=300 mem=4 name=c11_writer_fault_k066 uws="fn:^std::ptr::drop_glue::<:2;fn:Drop>::drop$:2;fn:drop_box_raw:2;fn:^std::mem::drop::<:2"
 c11_fault_at!(c11_writer_fault_k066, 66);
 /// C11 writer scenario (start_file a, write, start_file b, write, finish, drop): the sink's I/O call number 67 fails (whatever its kind: write, seek or flush). No call panics - neither then nor later, incl. the implicit finalisation on drop -, the failure is reported by some call, and a failure-free run yields exactly the reference archive.
-// @h prop=C11,C12 tier=thorough t=300 mem=4 name=c11_writer_fault_k067 uws="fn:^std::ptr::drop_glue::<:2;fn:Drop>::drop$:2;fn:drop_box_raw:2;fn:^std::mem::drop::<:2"
+// @h prop=C11 tier=thorough t=300 mem=4 name=c11_writer_fault_k067 uws="fn:^std::ptr::drop_glue::<:2;fn:Drop>::drop$:2;fn:drop_box_raw:2;fn:^std::mem::drop::<:2"
 c11_fault_at!(c11_writer_fault_k067, 67);
 /// C11 writer scenario (start_file a, write, start_file b, write, finish, drop): the sink's I/O call number 68 fails (whatever its kind: write, seek or flush). No call panics - neither then nor later, incl. the implicit finalisation on drop -, the failure is reported by some call, and a failure-free run yields exactly the reference archive.
-// @h prop=C11,C12 tier=thorough t=300 mem=4 name=c11_writer_fault_k068 uws="fn:^std::ptr::drop_glue::<:2;fn:Drop>::drop$:2;fn:drop_box_raw:2;fn:^std::mem::drop::<:2"
+// @h prop=C11 tier=thorough t=300 mem=4 name=c11_writer_fault_k068 uws="fn:^std::ptr::drop_glue::<:2;fn:Drop>::drop$:2;fn:drop_box_raw:2;fn:^std::mem::drop::<:2"
 c11_fault_at!(c11_writer_fault_k068, 68);
 /// C11 writer scenario (start_file a, write, start_file b, write, finish, drop): the sink's I/O call number 69 fails (whatever its kind: write, seek or flush). No call panics - neither then nor later, incl. the implicit finalisation on drop -, the failure is reported by some call, and a failure-free run yields exactly the reference archive.
-// @h prop=C11,C12 tier=thorough t=300 mem=4 name=c11_writer_fault_k069 uws="fn:^std::ptr::drop_glue::<:2;fn:Drop>::drop$:2;fn:drop_box_raw:2;fn:^std::mem::drop::<:2"
+// @h prop=C11 tier=thorough t=300 mem=4 name=c11_writer_fault_k069 uws="fn:^std::ptr::drop_glue::<:2;fn:Drop>::drop$:2;fn:drop_box_raw:2;fn:^std::mem::drop::<:2"
 c11_fault_at!(c11_writer_fault_k069, 69);
 /// C11 writer scenario (start_file a, write, start_file b, write, finish, drop): the sink's I/O call number 70 fails (whatever its kind: write, seek or flush). No call panics - neither then nor later, incl. the implicit finalisation on drop -, the failure is reported by some call, and a failure-free run yields exactly the reference archive.
-// @h prop=C11,C12 tier=thorough t=300 mem=4 name=c11_writer_fault_k070 uws="fn:^std::ptr::drop_glue::<:2;fn:Drop>::drop$:2;fn:drop_box_raw:2;fn:^std::mem::drop::<:2"
+// @h prop=C11 tier=thorough t=300 mem=4 name=c11_writer_fault_k070 uws="fn:^std::ptr::drop_glue::<:2;fn:Drop>::drop$:2;fn:drop_box_raw:2;fn:^std::mem::drop::<:2"
 c11_fault_at!(c11_writer_fault_k070, 70);
 /// C11 writer scenario (start_file a, write, start_file b, write, finish, drop): the sink's I/O call number 71 fails (whatever its kind: write, seek or flush). No call panics - neither then nor later, incl. the implicit finalisation on drop -, the failure is reported by some call, and a failure-free run yields exactly the reference archive.
-// @h prop=C11,C12 tier=thorough t=300 mem=4 name=c11_writer_fault_k071 uws="fn:^std::ptr::drop_glue::<:2;fn:Drop>::drop$:2;fn:drop_box_raw:2;fn:^std::mem::drop::<:2"
+// @h prop=C11 tier=thorough t=300 mem=4 name=c11_writer_fault_k071 uws="fn:^std::ptr::drop_glue::<:2;fn:Drop>::drop$:2;fn:drop_box_raw:2;fn:^std::mem::drop::<:2"
 c11_fault_at!(c11_writer_fault_k071, 71);
 /// C11 writer scenario (start_file a, write, start_file b, write, finish, drop): the sink's I/O call number 72 fails (whatever its kind: write, seek or flush). No call panics - neither then nor later, incl. the implicit finalisation on drop -, the failure is reported by some call, and a failure-free run yields exactly the reference archive.
-// @h prop=C11,C12 tier=thorough t=300 mem=4 name=c11_writer_fault_k072 uws="fn:^std::ptr::drop_glue::<:2;fn:Drop>::drop$:2;fn:drop_box_raw:2;fn:^std::mem::drop::<:2"
+// @h prop=C11 tier=thorough t=300 mem=4 name=c11_writer_fault_k072 uws="fn:^std::ptr::drop_glue::<:2;fn:Drop>::drop$:2;fn:drop_box_raw:2;fn:^std::mem::drop::<:2"
 c11_fault_at!(c11_writer_fault_k072, 72);
 /// C11 writer scenario (start_file a, write, start_file b, write, finish, drop): the sink's I/O call number 73 fails (whatever its kind: write, seek or flush). No call panics - neither then nor later, incl. the implicit finalisation on drop -, the failure is reported by some call, and a failure-free run yields exactly the reference archive.
-// @h prop=C11,C12 tier=thorough t=300 mem=4 name=c11_writer_fault_k073 uws="fn:^std::ptr::drop_glue::<:2;fn:Drop>::drop$:2;fn:drop_box_raw:2;fn:^std::mem::drop::<:2"
+// @h prop=C11 tier=thorough t=300 mem=4 name=c11_writer_fault_k073 uws="fn:^std::ptr::drop_glue::<:2;fn:Drop>::drop$:2;fn:drop_box_raw:2;fn:^std::mem::drop::<:2"
 c11_fault_at!(c11_writer_fault_k073, 73);
 /// C11 writer scenario (start_file a, write, start_file b, write, finish, drop): the sink's I/O call number 74 fails (whatever its kind: write, seek or flush). No call panics - neither then nor later, incl. the implicit finalisation on drop -, the failure is reported by some call, and a failure-free run yields exactly the reference archive.
-// @h prop=C11,C12 tier=thorough t=300 mem=4 name=c11_writer_fault_k074 uws="fn:^std::ptr::drop_glue::<:2;fn:Drop>::drop$:2;fn:drop_box_raw:2;fn:^std::mem::drop::<:2"
+// @h prop=C11 tier=thorough t=300 mem=4 name=c11_writer_fault_k074 uws="fn:^std::ptr::drop_glue::<:2;fn:Drop>::drop$:2;fn:drop_box_raw:2;fn:^std::mem::drop::<:2"
 c11_fault_at!(c11_writer_fault_k074, 74);
 /// C11 writer scenario (start_file a, write, start_file b, write, finish, drop): the sink's I/O call number 75 fails (whatever its kind: write, seek or flush). No call panics - neither then nor later, incl. the implicit finalisation on drop -, the failure is reported by some call, and a failure-free run yields exactly the reference archive.
-// @h prop=C11,C12 tier=thorough t=300 mem=4 name=c11_writer_fault_k075 uws="fn:^std::ptr::drop_glue::<:2;fn:Drop>::drop$:2;fn:drop_box_raw:2;fn:^std::mem::drop::<:2"
+// @h prop=C11 tier=thorough t=300 mem=4 name=c11_writer_fault_k075 uws="fn:^std::ptr::drop_glue::<:2;fn:Drop>::drop$:2;fn:drop_box_raw:2;fn:^std::mem::drop::<:2"
 c11_fault_at!(c11_writer_fault_k075, 75);
 /// C11 writer scenario (start_file a, write, start_file b, write, finish, drop): the sink's I/O call number 76 fails (whatever its kind: write, seek or flush). No call panics - neither then nor later, incl. the implicit finalisation on drop -, the failure is reported by some call, and a failure-free run yields exactly the reference archive.
-// @h prop=C11,C12 tier=thorough t=300 mem=4 name=c11_writer_fault_k076 uws="fn:^std::ptr::drop_glue::<:2;fn:Drop>::drop$:2;fn:drop_box_raw:2;fn:^std::mem::drop::<:2"
+// @h prop=C11 tier=thorough t=300 mem=4 name=c11_writer_fault_k076 uws="fn:^std::ptr::drop_glue::<:2;fn:Drop>::drop$:2;fn:drop_box_raw:2;fn:^std::mem::drop::<:2"
 c11_fault_at!(c11_writer_fault_k076, 76);
 /// C11 writer scenario (start_file a, write, start_file b, write, finish, drop): the sink's I/O call number 77 fails (whatever its kind: write, seek or flush). No call panics - neither then nor later, incl. the implicit finalisation on drop -, the failure is reported by some call, and a failure-free run yields exactly the reference archive.
-// @h prop=C11,C12 tier=thorough t=300 mem=4 name=c11_writer_fault_k077 uws="fn:^std::ptr::drop_glue::<:2;fn:Drop>::drop$:2;fn:drop_box_raw:2;fn:^std::mem::drop::<:2"
+// @h prop=C11 tier=thorough t=300 mem=4 name=c11_writer_fault_k077 uws="fn:^std::ptr::drop_glue::<:2;fn:Drop>::drop$:2;fn:drop_box_raw:2;fn:^std::mem::drop::<:2"
 c11_fault_at!(c11_writer_fault_k077, 77);
 /// C11 writer scenario (start_file a, write, start_file b, write, finish, drop): the sink's I/O call number 78 fails (whatever its kind: write, seek or flush). No call panics - neither then nor later, incl. the implicit finalisation on drop -, the failure is reported by some call, and a failure-free run yields exactly the reference archive.
-// @h prop=C11,C12 tier=thorough t=300 mem=4 name=c11_writer_fault_k078 uws="fn:^std::ptr::drop_glue::<:2;fn:Drop>::drop$:2;fn:drop_box_raw:2;fn:^std::mem::drop::<:2"
+// @h prop=C11 tier=thorough t=300 mem=4 name=c11_writer_fault_k078 uws="fn:^std::ptr::drop_glue::<:2;fn:Drop>::drop$:2;fn:drop_box_raw:2;fn:^std::mem::drop::<:2"
 c11_fault_at!(c11_writer_fault_k078, 78);
 /// C11 writer scenario (start_file a, write, start_file b, write, finish, drop): the sink's I/O call number 79 fails (whatever its kind: write, seek or flush). No call panics - neither then nor later, incl. the implicit finalisation on drop -, the failure is reported by some call, and a failure-free run yields exactly the reference archive.
-// @h prop=C11,C12 tier=thorough t=300 mem=4 name=c11_writer_fault_k079 uws="fn:^std::ptr::drop_glue::<:2;fn:Drop>::drop$:2;fn:drop_box_raw:2;fn:^std::mem::drop::<:2"
+// @h prop=C11 tier=thorough t=300 mem=4 name=c11_writer_fault_k079 uws="fn:^std::ptr::drop_glue::<:2;fn:Drop>::drop$:2;fn:drop_box_raw:2;fn:^std::mem::drop::<:2"
 c11_fault_at!(c11_writer_fault_k079, 79);
 /// C11 writer scenario (start_file a, write, start_file b, write, finish, drop): the sink's I/O call number 80 fails (whatever its kind: write, seek or flush). No call panics - neither then nor later, incl. the implicit finalisation on drop -, the failure is reported by some call, and a failure-free run yields exactly the reference archive.
-// @h prop=C11,C12 tier=thorough t=300 mem=4 name=c11_writer_fault_k080 uws="fn:^std::ptr::drop_glue::<:2;fn:Drop>::drop$:2;fn:drop_box_raw:2;fn:^std::mem::drop::<:2"
+// @h prop=C11 tier=thorough t=300 mem=4 name=c11_writer_fault_k080 uws="fn:^std::ptr::drop_glue::<:2;fn:Drop>::drop$:2;fn:drop_box_raw:2;fn:^std::mem::drop::<:2"
 c11_fault_at!(c11_writer_fault_k080, 80);
 /// C11 writer scenario (start_file a, write, start_file b, write, finish, drop): the sink's I/O call number 81 fails (whatever its kind: write, seek or flush). No call panics - neither then nor later, incl. the implicit finalisation on drop -, the failure is reported by some call, and a failure-free run yields exactly the reference archive.
-// @h prop=C11,C12 tier=thorough t=300 mem=4 name=c11_writer_fault_k081 uws="fn:^std::ptr::drop_glue::<:2;fn:Drop>::drop$:2;fn:drop_box_raw:2;fn:^std::mem::drop::<:2"
+// @h prop=C11 tier=thorough t=300 mem=4 name=c11_writer_fault_k081 uws="fn:^std::ptr::drop_glue::<:2;fn:Drop>::drop$:2;fn:drop_box_raw:2;fn:^std::mem::drop::<:2"
 c11_fault_at!(c11_writer_fault_k081, 81);
 /// C11 writer scenario (start_file a, write, start_file b, write, finish, drop): the sink's I/O call number 82 fails (whatever its kind: write, seek or flush). No call panics - neither then nor later, incl. the implicit finalisation on drop -, the failure is reported by some call, and a failure-free run yields exactly the reference archive.
-// @h prop=C11,C12 tier=thorough t=300 mem=4 name=c11_writer_fault_k082 uws="fn:^std::ptr::drop_glue::<:2;fn:Drop>::drop$:2;fn:drop_box_raw:2;fn:^std::mem::drop::<:2"
+// @h prop=C11 tier=thorough t=300 mem=4 name=c11_writer_fault_k082 uws="fn:^std::ptr::drop_glue::<:2;fn:Drop>::drop$:2;fn:drop_box_raw:2;fn:^std::mem::drop::<:2"
 c11_fault_at!(c11_writer_fault_k082, 82);
 /// C11 writer scenario (start_file a, write, start_file b, write, finish, drop): the sink's I/O call number 83 fails (whatever its kind: write, seek or flush). No call panics - neither then nor later, incl. the implicit finalisation on drop -, the failure is reported by some call, and a failure-free run yields exactly the reference archive.
-// @h prop=C11,C12 tier=thorough t=300 mem=4 name=c11_writer_fault_k083 uws="fn:^std::ptr::drop_glue::<:2;fn:Drop>::drop$:2;fn:drop_box_raw:2;fn:^std::mem::drop::<:2"
+// @h prop=C11 tier=thorough t=300 mem=4 name=c11_writer_fault_k083 uws="fn:^std::ptr::drop_glue::<:2;fn:Drop>::drop$:2;fn:drop_box_raw:2;fn:^std::mem::drop::<:2"
 c11_fault_at!(c11_writer_fault_k083, 83);
 /// C11 writer scenario (start_file a, write, start_file b, write, finish, drop): the sink's I/O call number 84 fails (whatever its kind: write, seek or flush). No call panics - neither then nor later, incl. the implicit finalisation on drop -, the failure is reported by some call, and a failure-free run yields exactly the reference archive.
-// @h prop=C11,C12 tier=thorough t=300 mem=4 name=c11_writer_fault_k084 uws="fn:^std::ptr::drop_glue::<:2;fn:Drop>::drop$:2;fn:drop_box_raw:2;fn:^std::mem::drop::<:2"
+// @h prop=C11 tier=thorough t=300 mem=4 name=c11_writer_fault_k084 uws="fn:^std::ptr::drop_glue::<:2;fn:Drop>::drop$:2;fn:drop_box_raw:2;fn:^std::mem::drop::<:2"
 c11_fault_at!(c11_writer_fault_k084, 84);
 /// C11 writer scenario (start_file a, write, start_file b, write, finish, drop): the sink's I/O call number 85 fails (whatever its kind: write, seek or flush). No call panics - neither then nor later, incl. the implicit finalisation on drop -, the failure is reported by some call, and a failure-free run yields exactly the reference archive.
-// @h prop=C11,C12 tier=thorough t=300 mem=4 name=c11_writer_fault_k085 uws="fn:^std::ptr::drop_glue::<:2;fn:Drop>::drop$:2;fn:drop_box_raw:2;fn:^std::mem::drop::<:2"
+// @h prop=C11 tier=thorough t=300 mem=4 name=c11_writer_fault_k085 uws="fn:^std::ptr::drop_glue::<:2;fn:Drop>::drop$:2;fn:drop_box_raw:2;fn:^std::mem::drop::<:2"
 c11_fault_at!(c11_writer_fault_k085, 85);
 /// C11 writer scenario (start_file a, write, start_file b, write, finish, drop): the sink's I/O call number 86 fails (whatever its kind: write, seek or flush). No call panics - neither then nor later, incl. the implicit finalisation on drop -, the failure is reported by some call, and a failure-free run yields exactly the reference archive.
-// @h prop=C11,C12 tier=thorough t=300 mem=4 name=c11_writer_fault_k086 uws="fn:^std::ptr::drop_glue::<:2;fn:Drop>::drop$:2;fn:drop_box_raw:2;fn:^std::mem::drop::<:2"
+// @h prop=C11 tier=thorough t=300 mem=4 name=c11_writer_fault_k086 uws="fn:^std::ptr::drop_glue::<:2;fn:Drop>::drop$:2;fn:drop_box_raw:2;fn:^std::mem::drop::<:2"
 c11_fault_at!(c11_writer_fault_k086, 86);
 /// C11 writer scenario (start_file a, write, start_file b, write, finish, drop): the sink's I/O call number 87 fails (whatever its kind: write, seek or flush). No call panics - neither then nor later, incl. the implicit finalisation on drop -, the failure is reported by some call, and a failure-free run yields exactly the reference archive.
-// @h prop=C11,C12 tier=thorough t=300 mem=4 name=c11_writer_fault_k087 uws="fn:^std::ptr::drop_glue::<:2;fn:Drop>::drop$:2;fn:drop_box_raw:2;fn:^std::mem::drop::<:2"
+// @h prop=C11 tier=thorough t=300 mem=4 name=c11_writer_fault_k087 uws="fn:^std::ptr::drop_glue::<:2;fn:Drop>::drop$:2;fn:drop_box_raw:2;fn:^std::mem::drop::<:2"
 c11_fault_at!(c11_writer_fault_k087, 87);
 /// C11 writer scenario (start_file a, write, start_file b, write, finish, drop): the sink's I/O call number 88 fails (whatever its kind: write, seek or flush). No call panics - neither then nor later, incl. the implicit finalisation on drop -, the failure is reported by some call, and a failure-free run yields exactly the reference archive.
-// @h prop=C11,C12 tier=quick t=300 mem=4 name=c11_writer_fault_k088 uws="fn:^std::ptr::drop_glue::<:2;fn:Drop>::drop$:2;fn:drop_box_raw:2;fn:^std::mem::drop::<:2"
+// @h prop=C11 tier=quick t=300 mem=4 name=c11_writer_fault_k088 uws="fn:^std::ptr::drop_glue::<:2;fn:Drop>::drop$:2;fn:drop_box_raw:2;fn:^std::mem::drop::<:2"
 c11_fault_at!(c11_writer_fault_k088, 88);
 /// C11 writer scenario (start_file a, write, start_file b, write, finish, drop): the sink's I/O call number 89 fails (whatever its kind: write, seek or flush). No call panics - neither then nor later, incl. the implicit finalisation on drop -, the failure is reported by some call, and a failure-free run yields exactly the reference archive.
-// @h prop=C11,C12 tier=thorough t=300 mem=4 name=c11_writer_fault_k089 uws="fn:^std::ptr::drop_glue::<:2;fn:Drop>::drop$:2;fn:drop_box_raw:2;fn:^std::mem::drop::<:2"
+// @h prop=C11 tier=thorough t=300 mem=4 name=c11_writer_fault_k089 uws="fn:^std::ptr::drop_glue::<:2;fn:Drop>::drop$:2;fn:drop_box_raw:2;fn:^std::mem::drop::<:2"
 c11_fault_at!(c11_writer_fault_k089, 89);
 /// C11 writer scenario (start_file a, write, start_file b, write, finish, drop): the sink's I/O call number 90 fails (whatever its kind: write, seek or flush). No call panics - neither then nor later, incl. the implicit finalisation on drop -, the failure is reported by some call, and a failure-free run yields exactly the reference archive.
-// @h prop=C11,C12 tier=thorough t=300 mem=4 name=c11_writer_fault_k090 uws="fn:^std::ptr::drop_glue::<:2;fn:Drop>::drop$:2;fn:drop_box_raw:2;fn:^std::mem::drop::<:2"
+// @h prop=C11 tier=thorough t=300 mem=4 name=c11_writer_fault_k090 uws="fn:^std::ptr::drop_glue::<:2;fn:Drop>::drop$:2;fn:drop_box_raw:2;fn:^std::mem::drop::<:2"
 c11_fault_at!(c11_writer_fault_k090, 90);
 /// C11 writer scenario (start_file a, write, start_file b, write, finish, drop): the sink's I/O call number 91 fails (whatever its kind: write, seek or flush). No call panics - neither then nor later, incl. the implicit finalisation on drop -, the failure is reported by some call, and a failure-free run yields exactly the reference archive.
-// @h prop=C11,C12 tier=thorough t=300 mem=4 name=c11_writer_fault_k091 uws="fn:^std::ptr::drop_glue::<:2;fn:Drop>::drop$:2;fn:drop_box_raw:2;fn:^std::mem::drop::<:2"
+// @h prop=C11 tier=thorough t=300 mem=4 name=c11_writer_fault_k091 uws="fn:^std::ptr::drop_glue::<:2;fn:Drop>::drop$:2;fn:drop_box_raw:2;fn:^std::mem::drop::<:2"
 c11_fault_at!(c11_writer_fault_k091, 91);
 /// C11 writer scenario (start_file a, write, start_file b, write, finish, drop): no I/O call fails (index beyond the scenario): the failure-free reference run. No call panics - neither then nor later, incl. the implicit finalisation on drop -, the failure is reported by some call, and a failure-free run yields exactly the reference archive.
-// @h prop=C11,C12 tier=quick t=300 mem=4 name=c11_writer_fault_k200 uws="fn:^std::ptr::drop_glue::<:2;fn:Drop>::drop$:2;fn:drop_box_raw:2;fn:^std::mem::drop::<:2"
+// @h prop=C11 tier=quick t=300 mem=4 name=c11_writer_fault_k200 uws="fn:^std::ptr::drop_glue::<:2;fn:Drop>::drop$:2;fn:drop_box_raw:2;fn:^std::mem::drop::<:2"
 c11_fault_at!(c11_writer_fault_k200, 200);
 
 // =============================================================================================
